@@ -53,3 +53,15 @@ def prefix_sums_monotone(a, p):
         pass
     for j in range(len(a)):
         pass
+
+
+@lemma(args={"d": "array[real]", "c": "array[real]", "g": "array[real]"})
+def telescoping(d, c, g):
+    """Cumulative sums of consecutive differences telescope."""
+    requires(len(d) == len(g) and len(d) >= 1)
+    requires(len(c) == len(d) and c[0] == d[0] and forall(1, len(d), lambda k: c[k] == c[k - 1] + d[k]))
+    requires(d[0] == 0 and forall(1, len(d), lambda k: d[k] == g[k] - g[k - 1]))
+    ensures(forall(0, len(d), lambda j: c[j] == g[j] - g[0]))
+    loop(0, inv=lambda it: forall(0, it, lambda j: c[j] == g[j] - g[0]))
+    for j in range(len(d)):
+        pass
